@@ -84,7 +84,12 @@ package channel
 //@   ensures #hands-out-queue-head result.1 == nil ==> rd == old(rd) ++ result.0 && (len(old(c.Q.queue)) == 0 ? (len(result.0) == 0 && c.Q.queue == old(c.Q.queue)) : (result.0 == old(c.Q.queue)[0] && c.Q.queue == old(c.Q.queue)[1:len(old(c.Q.queue))]))
 //@   ensures #exited-means-error c.readLoopExited ==> result.1 != nil
 
+// polled: ghost - the context was polled in this iteration of a read-until loop
+//@ ghost polled bool local
 //@ func (*Channel).ReadUntilPrompt [C01 C05 C06 C12]
+//@   loop 1 set polled = false
+//@   after call Done#1 set polled = true
+//@   at call! Read#1 assert [C05] #the-context-is-polled-before-every-read-of-the-queue polled
 //@   requires RI(c.Q) && c.PromptSearchDepth >= 0
 //@   modifies rd, c.Q.queue, c.Q.depth, chan(c.Q.depthChan), quiet
 //@   at return set quiet = (result.1 == nil)
@@ -96,6 +101,9 @@ package channel
 //@   loop 1 invariant RI(c.Q) && rd == old(rd) ++ rb
 
 //@ func (*Channel).ReadUntilAnyPrompt [C01 C05 C06 C12]
+//@   loop 1 set polled = false
+//@   after call Done#1 set polled = true
+//@   at call! Read#1 assert [C05] #the-context-is-polled-before-every-read-of-the-queue polled
 //@   requires RI(c.Q) && c.PromptSearchDepth >= 0
 //@   modifies rd, c.Q.queue, c.Q.depth, chan(c.Q.depthChan), quiet
 //@   at return set quiet = (result.1 == nil)
@@ -108,6 +116,9 @@ package channel
 //@   loop 2 invariant rangeindex < len(prompts) && RI(c.Q) && rd == old(rd) ++ rb && prb == window(rb, c.PromptSearchDepth)
 
 //@ func (*Channel).ReadUntilExplicit [C01 C05 C06]
+//@   loop 1 set polled = false
+//@   after call Done#1 set polled = true
+//@   at call! Read#1 assert [C05] #the-context-is-polled-before-every-read-of-the-queue polled
 //@   requires RI(c.Q) && c.PromptSearchDepth >= 0 && len(b) <= 4611686018427387903
 //@   modifies rd, c.Q.queue, c.Q.depth, chan(c.Q.depthChan)
 //@   ensures #ri RI(c.Q)
@@ -117,6 +128,9 @@ package channel
 //@   loop 1 invariant RI(c.Q) && rd == old(rd) ++ rb
 
 //@ func (*Channel).ReadUntilFuzzy [C01 C05 C06 C12]
+//@   loop 1 set polled = false
+//@   after call Done#1 set polled = true
+//@   at call! Read#1 assert [C05] #the-context-is-polled-before-every-read-of-the-queue polled
 //@   requires RI(c.Q) && c.PromptSearchDepth >= 0 && len(b) <= 4611686018427387903
 //@   modifies rd, c.Q.queue, c.Q.depth, chan(c.Q.depthChan)
 //@   ensures #ri RI(c.Q)
